@@ -16,29 +16,32 @@ void replace_substrings(char *buffer,
     const char *strit = input;
     const char *streit = input + inlen;
     char *bufit = buffer;
+    char *bufend;
+    size_t n;
 
-    if (sublen == 0)
-    {
-        size_t len = __MIN__(maxsize - 1, inlen);
-        memcpy(buffer, input, len);
-        buffer[len] = 0;
-    }
+    if (maxsize == 0)
+        return;
+    /* never write beyond buffer[maxsize - 1], which is kept for the terminator */
+    bufend = buffer + maxsize - 1;
 
     char *finded;
     while ((finded = igris_memmem(strit, streit - strit, sub, sublen)) != NULL)
     {
         ptrdiff_t step = finded - strit;
 
-        memcpy(bufit, strit, step);
-        bufit += step;
+        n = __MIN__((size_t)step, (size_t)(bufend - bufit));
+        memcpy(bufit, strit, n);
+        bufit += n;
         strit += step;
 
-        memcpy(bufit, rep, replen);
-        bufit += replen;
+        n = __MIN__(replen, (size_t)(bufend - bufit));
+        memcpy(bufit, rep, n);
+        bufit += n;
         strit += sublen;
     };
 
     ptrdiff_t lastlen = streit - strit;
-    memcpy(bufit, strit, lastlen);
-    *(bufit + lastlen) = 0;
+    n = __MIN__((size_t)lastlen, (size_t)(bufend - bufit));
+    memcpy(bufit, strit, n);
+    *(bufit + n) = 0;
 }
